@@ -1,0 +1,20 @@
+//go:build verif
+
+package storage
+
+import "time"
+
+// Pure specification functions used by the contracts in zz_contracts_verif.go.
+
+const specDay = 24 * time.Hour
+
+// specNextMidnightUTC: the first midnight UTC strictly after t (S3 lifecycle: "rounds up to the next midnight UTC").
+func specNextMidnightUTC(t time.Time) time.Time {
+	return t.UTC().Truncate(specDay).Add(specDay)
+}
+
+// specDueAfterDays: an action configured with a number of days becomes due at the first midnight UTC after
+// start + days * 24 h.
+func specDueAfterDays(start time.Time, days int32) time.Time {
+	return specNextMidnightUTC(start.Add(time.Duration(days) * specDay))
+}
